@@ -71,6 +71,7 @@ struct Model {
 pub fn builder_seq(ops: &[u8], start_with_reducer: bool, probes: u8) {
     rt::reset_all();
     script::reset_tables();
+    crossbeam::hooks::set_native(None, Some(builder_block));
     let init: St = kani::any();
     let mut m = Model {
         name_empty: false,
@@ -223,32 +224,34 @@ pub fn builder_seq(ops: &[u8], start_with_reducer: bool, probes: u8) {
                 let res = store.dispatch(kani::any());
                 let after = crossbeam::channel::ghost(0);
                 chk!(17, res.is_ok(), "dispatch on a fresh store is accepted");
-                if m.policy == 0 {
-                    chk!(17, after.n_send == before.n_send + 1 && after.n_try_send == before.n_try_send, "BlockOnFull configured: blocking send used");
-                } else {
-                    chk!(17, after.n_try_send == before.n_try_send + 1 && after.n_send == before.n_send, "drop policy configured: non-blocking send used");
-                    if m.cap <= 3 {
-                        // fill the queue, then one more
-                        if m.cap >= 2 {
-                            core::mem::forget(store.dispatch(kani::any()));
-                        }
-                        if m.cap >= 3 {
-                            core::mem::forget(store.dispatch(kani::any()));
-                        }
-                        let full = crossbeam::channel::ghost(0);
-                        chk!(17, full.len == m.cap, "queue filled to the configured capacity");
-                        let d: Arc<crate::StoreImpl<St, Act>> = store.clone();
-                        let r2 = Dispatcher::dispatch(&d, kani::any());
-                        let fin = crossbeam::channel::ghost(0);
-                        if m.policy == 1 {
-                            chk!(17, r2.is_ok() && fin.n_taken == full.n_taken + 1 && fin.len == m.cap, "DropOldest configured: head evicted, new action admitted");
-                        } else {
-                            chk!(17, r2.is_err() && fin.n_taken == full.n_taken && fin.len == m.cap, "DropLatest configured: new action rejected, queue untouched");
-                        }
-                        chk!(17, fin.max_len <= m.cap, "queue never exceeded the configured capacity");
-                        core::mem::forget(r2);
-                        core::mem::forget(d);
+                chk!(17, after.len == before.len + 1, "the accepted action is queued");
+                if m.cap <= 3 {
+                    // fill the queue, then one more: the configured policy decides what happens
+                    if m.cap >= 2 {
+                        core::mem::forget(store.dispatch(kani::any()));
                     }
+                    if m.cap >= 3 {
+                        core::mem::forget(store.dispatch(kani::any()));
+                    }
+                    let full = crossbeam::channel::ghost(0);
+                    chk!(17, full.len == m.cap, "queue filled to the configured capacity");
+                    let d: Arc<crate::StoreImpl<St, Act>> = store.clone();
+                    unsafe {
+                        BUILDER_BLOCKS = 0;
+                    }
+                    let r2 = Dispatcher::dispatch(&d, kani::any());
+                    let fin = crossbeam::channel::ghost(0);
+                    let blocked = unsafe { BUILDER_BLOCKS };
+                    if m.policy == 0 {
+                        chk!(17, blocked == 1 && r2.is_ok() && fin.len == m.cap, "BlockOnFull configured: the dispatch waits until the reducer side frees a slot, then is accepted");
+                    } else if m.policy == 1 {
+                        chk!(17, blocked == 0 && r2.is_ok() && fin.n_taken == full.n_taken + 1 && fin.len == m.cap, "DropOldest configured: head evicted, new action admitted, no waiting");
+                    } else {
+                        chk!(17, blocked == 0 && r2.is_err() && fin.n_taken == full.n_taken && fin.len == m.cap, "DropLatest configured: new action rejected, queue untouched, no waiting");
+                    }
+                    chk!(17, fin.max_len <= m.cap, "queue never exceeded the configured capacity");
+                    core::mem::forget(r2);
+                    core::mem::forget(d);
                 }
                 core::mem::forget(res);
             }
@@ -318,6 +321,18 @@ pub fn builder_seq(ops: &[u8], start_with_reducer: bool, probes: u8) {
 }
 
 static mut SAW_ERR: bool = false;
+static mut BUILDER_BLOCKS: u8 = 0;
+/// a BlockOnFull dispatch met the full queue: the reducer side takes the head
+pub fn builder_block(kind: u8, obj: usize) {
+    unsafe {
+        if kind == crossbeam::hooks::SEND && obj == 0 && BUILDER_BLOCKS == 0 {
+            BUILDER_BLOCKS = 1;
+            crossbeam::channel::model_take_head::<crate::store_impl::ActionOp<Act>>(0);
+            return;
+        }
+    }
+    panic!("VERIF-DEADLOCK: blocked with nothing to unblock");
+}
 
 
 // ---- quick tier: hand-picked sequences, all probes, one run per harness ----------------
